@@ -9,7 +9,7 @@
 From Coq Require Import List NArith Bool Lia Sorted Permutation.
 Import ListNotations.
 Require Import EV.Base EV.ListN EV.Access EV.Query EV.SlotMap EV.Reserve EV.HList EV.Loop EV.World EV.SlotMapGet
-  EV.ArchProofs EV.QueryProofs EV.WorldFrame EV.Store EV.Graph EV.Effects EV.Reach EV.RemoveComp EV.Member EV.Listen EV.Fetch.
+  EV.ArchProofs EV.WorldFrame EV.Store EV.Graph EV.Effects EV.Reach EV.RemoveComp EV.Member EV.Listen.
 Open Scope N_scope.
 
 (* the ledger entries of a list of (component index, value) pairs, given the component tags *)
